@@ -492,6 +492,9 @@ func builtinToString(i *Interpreter, args []Expr, env *Environment) (interface{}
 	if err != nil {
 		return nil, err
 	}
+	if arg == nil {
+		return "null", nil
+	}
 	return fmt.Sprintf("%v", arg), nil
 }
 
